@@ -283,7 +283,7 @@ def handle (op : String) (args : List String) : String :=
     let old := RsslVerif.Driver.C03.handle op args
     match parseEnvOld vars funcs ret, (readSx stmt).bind toOldStmt with
     | some Γ, some s =>
-      let x := showOldStyle (elabStmt true Γ s)
+      let x := showOldStyle (elabStmt true false Γ s)
       if x == old then old else "MODEL-MISMATCH old=[" ++ old ++ "] extended=[" ++ x ++ "]"
     | _, _ => old
   | "C03.src", _ => "unsupported raw source"
